@@ -11,7 +11,7 @@ CFGS = {"quick": ["default", "all"], "thorough": ["default", "all", "nodefault",
 
 WITNESS = ["LinearWorld"]  # doctests of engine/witness run in the thorough tier
 
-EXPLANATION = """
+EXPLANATION = """(R6 = C10.R1, shared: every user callback is wrapped by catch_unwind, so no panic skips the after hook.) 
 (R1) World linearity: `unsafe_code` is forbidden at the crate root (so ownership cannot be circumvented), no
 long-lived runner state (Executor, Features, FinishedRulesAndFeatures, Basic, step::Collection, Cucumber, statics)
 has a field holding a World by value (fn pointers, references in signatures, PhantomData and the event channel
@@ -71,53 +71,79 @@ def r1(F, R):
 
 
 def r2(F, R):
+    """Where a World is created, decided on deep path tables (attempt.py) of the two routines that call World::new."""
+    from . import attempt as AT
+    from . import deep as D
     sites = [(b, s, t) for b, s, t, k in user_callback_sites(F) if k == "World::new"]
-    R.check(len(sites) == 2, "two-creation-sites", None, "World::new called at two sites", f"World::new is called at {len(sites)} sites")
+    roots = {F.root_fn(b).key: F.root_fn(b) for b, s, t in sites}
     rs, root, tree = roles.attempt_tree(F)
     b_step, fo = c02.run_step_body(F, tree)
-    for b, s, t in sites:
-        rootf = F.root_fn(b)
-        if rootf is F.root_fn(b_step):
-            # in run_step: the async block creating the world is created only when find = Ok(Some) and world_opt is None
-            cc = A.closure_creation(F, b)
-            P, cs, st = cc
-            vc = A.vc_at(P, cs)
-            finds = [(s2, t2) for s2, t2 in P.calls(lambda t2: callee_is(t2, r"Collection::<.*>::find$"))]
-            ok_find = False
-            if len(finds) == 1:
-                dl = finds[0][1]["dest"]["l"]
-                ok_find = vc.get(f"_{dl}") == frozenset(["Ok"]) and any(k.startswith(f"_{dl}@Ok") and v == frozenset(["Some"]) for k, v in vc.items())
-            none_keys = []
-            for g in A.guards_of(P, cs):
-                d = g.cond_def()
-                if d and d[0] == "discr" and g.variants() == {"None"}:
-                    fl = [e for e in A.canon_place(P, d[1])["p"] if isinstance(e, dict) and "f" in e]
-                    pty = fl[-1]["t"] if fl else P.locals[A.canon_place(P, d[1])["l"]]
-                    if pty == "std::option::Option<W>":
-                        none_keys.append(g)
-            R.check(ok_find, "step/created-only-if-matched", cs, "World::new only after find() = Ok(Some)", "a World can be created although the step did not match (or before matching)")
-            R.check(bool(none_keys), "step/created-only-if-absent", cs, "World::new only if no World exists yet", "a World can be created although the attempt already has one (mutations of earlier steps are lost)")
-        else:
-            # before hook: the body creating the world is built only when the hook is Some, and dominates the hook call
-            hook_sites = [(b2, s2) for b2, s2, t2, k in user_callback_sites(F) if k.startswith("hook:") and F.root_fn(b2) is rootf]
-            R.check(len(hook_sites) == 1, "before/hook-call-found", rootf, "", f"{len(hook_sites)} hook call sites in {rootf.short}")
-            co = roles.coroutine_of(F, rootf)
-            # init_world future is consumed by and_then(hook closure) under `if let Some(hook)`
-            ats = [(s2, t2) for s2, t2 in co.calls(lambda t2: callee_is(t2, r"TryFutureExt::and_then$"))]
-            ok = False
-            if len(ats) == 1:
-                s2, t2 = ats[0]
-                vc = A.vc_at(co, s2)
-                some = any(v == frozenset(["Some"]) for v in vc.values())
-                recv = A.slice_back(co, [t2["args"][0]])
-                first = any(rv.get("def") and b in F.nested(F.body(rv["def"])) for _, rv in recv.aggs if rv.get("agg") in ("coroutine", "closure") and F.body(rv["def"]) is not None)
-                kb = A.closure_of_operand(F, co, t2["args"][1])
-                second = kb is not None and any(b2 in F.nested(kb) for b2, _ in hook_sites)
-                ok = some and first and second
-            R.check(ok, "before/world-then-hook-only-if-hook-set", s, "init_world.and_then(hook) under `if let Some(hook)`",
-                    "the before-hook path does not create the World first and run the hook on it only when a hook is set")
-            # no World is created when no hook is set: the World-creating future is used only there
-            cc = A.closure_creation(F, F.parent_body(b) if F.parent_body(b).is_coroutine and F.parent_body(b) is not co else b)
+    step_family = {x.key for x in roles.family(F, F.root_fn(b_step))}
+    in_step = [r for r in roots.values() if r.key in step_family]
+    others = [r for r in roots.values() if r.key not in step_family]
+    R.check(len(in_step) >= 1 and len(others) == 1, "two-creation-sites", None, "World::new is called from the step routine and from one other routine (the before hook)",
+            f"World::new is called from {sorted(r.short for r in roots.values())}")
+    # --- step routine
+    T = AT.StepTable(F)
+    ok_m, ok_a, seen = True, True, 0
+    for r in T.rows:
+        if r["world_new"]:
+            seen += 1
+            ok_m = ok_m and r["find"] == "Ok" and r["found"] == "Some"
+            ok_a = ok_a and r["world_opt"] == "None"
+            if r["step_call"]:
+                ok_m = ok_m and r["world_new"][0] < r["step_call"][0]
+        elif r["panic_src"] and r["panic_src"][0] == "world":
+            ok_m = ok_m and r["find"] == "Ok" and r["found"] == "Some"
+            ok_a = ok_a and r["world_opt"] == "None"
+        if r["step_call"] and not r["world_new"]:
+            ok_a = ok_a and r["world_opt"] == "Some"
+    R.check(ok_m and seen >= 1, "step/created-only-if-matched", T.body, "World::new only after find() = Ok(Some)", "a World can be created although the step did not match (or before matching)")
+    R.check(ok_a and seen >= 1, "step/created-only-if-absent", T.body, "World::new only if no World exists yet", "a World can be created although the attempt already has one (mutations of earlier steps are lost), or the step runs without one")
+    # --- before-hook routine
+    if len(others) != 1:
+        return
+    rootf = others[0]
+    co = roles.coroutine_of(F, rootf)
+    BT = AT.BeforeTable(F, co)
+    hook_paths = 0
+    ok = True
+    why = ""
+    # the Option the hook is taken from: `(<X> as Some).0` is what the indirect call calls
+    X = None
+    for p in BT.paths:
+        for e in p.effects:
+            if AT.is_indirect(e):
+                for x in D.subterms(e[2][0]):
+                    if x[0] == "as" and x[2] == "Some":
+                        X = x[1]
+    for p in BT.paths:
+        wn = [i for i, e in enumerate(p.effects) if AT.is_world_new(e)]
+        hk = [i for i, e in enumerate(p.effects) if AT.is_indirect(e)]
+        src = AT.panic_sources(F, co, p)
+        world_panicked = "world" in src
+        # the Option the hook comes from: the discriminant condition on a field of self
+        hook_set = None
+        for a, out in p.conds:
+            if X is not None and a == ("discr", X):
+                hook_set = out
+        if (wn or world_panicked) and hook_set != "Some":
+            ok, why = False, "a World is created although no before hook is set"
+        if hook_set == "None" and (wn or hk):
+            ok, why = False, "user code runs although no before hook is set"
+        if hk:
+            hook_paths += 1
+            werr = [out for a, out in p.conds if a[0] == "discr" and a[1][0] == "await" and a[1][1][0] == "call" and re.search(r"World::new$", a[1][1][1])]
+            if not (wn and wn[0] < hk[0] and werr == ["Ok"] and not world_panicked):
+                ok, why = False, "the hook runs without a successfully created World before it"
+            else:
+                wt = [a[1] for a, out in p.conds if a[0] == "discr" and a[1][0] == "await" and a[1][1][0] == "call" and re.search(r"World::new$", a[1][1][1])][0]
+                payload = ("field", ("as", wt, "Ok"), 0)
+                if D.is_variant(p.ret, "std::result::Result", "Ok") and not D.mentions(p.ret, lambda x: x == payload):
+                    ok, why = False, "the World returned after the hook is not the one that was created"
+    R.check(hook_paths >= 1, "before/hook-call-found", rootf, "", f"no path of {rootf.short} calls the hook")
+    R.check(ok and hook_paths >= 1, "before/world-then-hook-only-if-hook-set", co, "init_world.and_then(hook) under `if let Some(hook)`",
+            "the before-hook path does not create the World first and run the hook on it only when a hook is set" + (": " + why if why else ""))
     R.floor(4)
 
 
@@ -290,4 +316,11 @@ def r5(F, R):
     R.floor(3)
 
 
-RULES = [("R1", r1, None), ("R2", r2, None), ("R3", r3, None), ("R4", r4, None), ("R5", r5, None)]
+def r6(F, R):
+    """No user callback can unwind past the attempt — otherwise its after hook (and Finished) never run.  This is C10.R1's
+    wrap rule; it is a necessary condition of C09's "the after hook runs once for every started attempt" as well."""
+    from . import c10
+    c10.r1(F, R)
+
+
+RULES = [("R1", r1, None), ("R2", r2, None), ("R3", r3, None), ("R4", r4, None), ("R5", r5, None), ("R6", r6, None)]
